@@ -16,14 +16,14 @@ import (
 
 // typSys is what the type oracle looks at: the real slip or a model.
 type typSys interface {
-	types() []string                        // every type symbol known to the class registry
-	objects() []string                      // the object universe
-	registered(T string) bool               // T names a class of the registry
-	typeOf(x string) (string, tri)          // (type-of x)
-	typep(x, T string) tri                  // (typep x T)
-	subtypep(A, B string) tri               // first value of (subtypep A B)
-	coerce(x, T string) (st, got string)    // st: "typed" | "untyped" | "error:<class>" | "go-fault"; got: kind of the result
-	objKind(x string) string                // fine kind, for signatures
+	types() []string                     // every type symbol known to the class registry
+	objects() []string                   // the object universe
+	registered(T string) bool            // T names a class of the registry
+	typeOf(x string) (string, tri)       // (type-of x)
+	typep(x, T string) tri               // (typep x T)
+	subtypep(A, B string) tri            // first value of (subtypep A B)
+	coerce(x, T string) (st, got string) // st: "typed" | "untyped" | "error:<class>" | "go-fault"; got: kind of the result
+	objKind(x string) string             // fine kind, for signatures
 }
 
 // registryTypes lists the class registry as seen from the user package
